@@ -72,6 +72,14 @@ pub trait Spec: 'static {
     fn from_bincode(_b: &[u8]) -> Option<Result<Self::R, String>> {
         None
     }
+    /// deserialize with bincode's Options API, which rejects trailing bytes
+    fn from_bincode_strict(_b: &[u8]) -> Option<Result<Self::R, String>> {
+        None
+    }
+    /// (a, b) written into ONE stream and read back (a snapshot must consume exactly its own bytes)
+    fn pair_roundtrip(_a: &Self::R, _b: &Self::R) -> Option<Result<(Self::R, Self::R), String>> {
+        None
+    }
     fn json(_r: &Self::R) -> Option<String> {
         None
     }
@@ -123,6 +131,14 @@ macro_rules! spec {
         }
         fn from_bincode(b: &[u8]) -> Option<Result<Self::R, String>> {
             Some(bincode::deserialize::<$ty>(b).map_err(|e| e.to_string()))
+        }
+        fn from_bincode_strict(b: &[u8]) -> Option<Result<Self::R, String>> {
+            use bincode::Options;
+            Some(bincode::options().with_fixint_encoding().deserialize::<$ty>(b).map_err(|e| e.to_string()))
+        }
+        fn pair_roundtrip(a: &Self::R, b: &Self::R) -> Option<Result<(Self::R, Self::R), String>> {
+            let bytes = bincode::serialize(&(a, b)).expect("bincode serialize pair");
+            Some(bincode::deserialize::<($ty, $ty)>(&bytes).map_err(|e| e.to_string()))
         }
         fn json(r: &Self::R) -> Option<String> {
             Some(serde_json::to_string(r).expect("json serialize"))
